@@ -78,7 +78,8 @@ var oddLex = map[string][]string{
 	"int32":    {"+5", "007", "-0", "1e3", "0x10", "2147483648", "-2147483649", "5.0"},
 	"double":   {"1e3", "1E3", ".5", "5.", "-0", "+1.5", "NaN", "Inf", "-Inf", "infinity", "0x1p-2", "1_0.5", "1e-400", "4.9e-324", "1e308", "1e309", "00.5", "1.5e+3"},
 	"float":    {"1e3", ".5", "5.", "-0", "+1.5", "NaN", "-Inf", "0x1p-2", "1e-60", "1e38", "3.5e38", "1.401298464324817e-45"},
-	"datetime": {"2024-02-29T23:59:60Z", "0001-01-01T00:00:00Z", "9999-12-31T23:59:59.999999999Z", "2024-01-02T03:04:05+14:00", "2024-01-02T03:04:05-00:00", "2024-01-02T03:04:05.5Z", "2024-01-02T24:00:00Z", "2024-01-02 03:04:05Z", "2024-01-02t03:04:05z", "2023-02-29T00:00:00Z", "2024-01-02T03:04:05", "2024-01-02T03:04:05+0200", "2024-1-2T03:04:05Z", "2024-01-02T03:04:05,5Z", "1969-12-31T23:59:59-12:00"},
+	"datetime": {"2024-02-29T23:59:60Z", "0001-01-01T00:00:00Z", "9999-12-31T23:59:59.999999999Z", "2024-01-02T03:04:05+14:00", "2024-01-02T03:04:05-00:00", "2024-01-02T03:04:05.5Z", "2024-01-02T24:00:00Z", "2024-01-02 03:04:05Z", "2024-01-02t03:04:05z", "2023-02-29T00:00:00Z", "2024-01-02T03:04:05", "2024-01-02T03:04:05+0200", "2024-1-2T03:04:05Z", "2024-01-02T03:04:05,5Z", "1969-12-31T23:59:59-12:00",
+		"2016-12-31T23:59:59.123456789012+05:30", "2024-01-02T03:04:05.000000000000000Z", "2024-01-02T03:04:05.1234567890123456789012345678901234567890Z"},
 	"bool":     {"TRUE", "True", "1", "0", "t", "f", "false "},
 }
 
@@ -135,11 +136,15 @@ type declCell struct {
 
 // cellMethod: the method of the operation under test - PUT when sibling operations are part of the cell (so that
 // one sibling is read before it and one after), GET otherwise.
-func cellMethod(cells []declCell) string {
+func cellMethod(cells []declCell, idx int) string {
 	for _, c := range cells {
 		if c.Level == "sibling" || c.Level == "siblingRef" {
 			return "PUT"
 		}
+	}
+	// (every third cell is a POST: methods for which a server-side form parser would also look into the body)
+	if idx%3 == 1 {
+		return "POST"
 	}
 	return "GET"
 }
@@ -149,7 +154,7 @@ func schemaOfType(t string) aspec.Schema { return aspec.Schema{K: t} }
 // cellOp renders one declaration cell as an operation (plus the components it needs).
 func cellOp(a *aspec.ASpec, idx int, cells []declCell) {
 	t := []aspec.Seg{{K: "lit", S: fmt.Sprintf("d%d", idx)}}
-	op := simpleOp(cellMethod(cells), t)
+	op := simpleOp(cellMethod(cells, idx), t)
 	pi := aspec.PathItem{Template: t}
 	var siblings []aspec.Op
 	for ci, cell := range cells {
@@ -453,7 +458,7 @@ func checkC04(c *core.Check) {
 				}
 				caseN++
 				cid := fmt.Sprintf("c%d", caseN)
-				rc := driver.ReqCase{ID: cid, Method: cellMethod(cells[ci]), Path: fmt.Sprintf("/d%d", ci), Headers: map[string][]string{}, Script: driver.Script{Parse: true, Reparse: true}}
+				rc := driver.ReqCase{ID: cid, Method: cellMethod(cells[ci], ci), Path: fmt.Sprintf("/d%d", ci), Headers: map[string][]string{}, Script: driver.Script{Parse: true, Reparse: true}}
 				q := url.Values{}
 				var sup []supEntry
 				for di, d := range ds {
@@ -486,6 +491,16 @@ func checkC04(c *core.Check) {
 							rc.Headers[d.Name+"-Other"] = []string{"8"}
 						}
 					}
+				}
+				if rc.Method != "GET" && caseN%4 == 1 {
+					// a form-encoded body whose fields are named like the declared parameters: a body is not where query
+					// and header parameters come from
+					var fields []string
+					for _, d := range ds {
+						fields = append(fields, url.QueryEscape(d.Name)+"="+url.QueryEscape(lexOf(d.Type, "canon", rng).Text))
+					}
+					rc.Headers["Content-Type"] = []string{"application/x-www-form-urlencoded"}
+					rc.Body, rc.HasBody = strings.Join(fields, "&")+"&other=1", true
 				}
 				g.Cases = append(g.Cases, rc)
 				meta[cid] = caseMeta{op: opID, decls: ds, sup: sup}
